@@ -157,6 +157,9 @@ func runC08(r *Run) {
 	r.Bound("paths", len(paths))
 	r.Bound("documents", len(docs))
 	epSweep(r, "verbose-vs-silent", paths, docs, epCfgs(), c08Oracle)
+	kes, kvals := keyvalueWalks()
+	r.Bound("keyvalue_walk_paths", 2*len(kes))
+	epSweep(r, "verbose-vs-silent", bothModes(kes), makeDocs(kvals), epCfgs()[:2], c08Oracle)
 	r.states.Add(int64(len(r.outcomes)))
 	_ = fmt.Sprint
 }
